@@ -544,6 +544,23 @@ Theorem C07_wide_positional_per_value : forall c0 bin vals m a,
 Proof. exact wide_top_positional_per_value. Qed.
 Print Assumptions C07_wide_positional_per_value.
 
+(** a positional with a value RANGE ([run_positional]: [a_multiple_values], no terminator, not trailing-var-arg): a run
+    of adjacent values is ONE occurrence; [parse_top] stores one group holding all of them, in order *)
+Theorem C07_wide_positional_run_scan : forall c a v vals, run_positional c 1 a -> value_tokens c (v :: vals) ->
+  woccurrences c (v :: vals) = Some [mkOcc (Some IIndex) SCmdLine a (v :: vals) None].
+Proof. exact woccurrences_run. Qed.
+Print Assumptions C07_wide_positional_run_scan.
+
+Theorem C07_wide_positional_run : forall c0 bin v vals m a,
+  let c := build_self (with_bin c0 bin) in
+  is_set s_no_binary_name c0 = false -> is_set s_ignore_errors c = false -> no_hyphen_args c = true ->
+  run_positional c 1 a -> value_tokens c (v :: vals) ->
+  a_get_action a = AAppend -> a_delim a = None -> (forall b, In b (c_args c) -> overridden c b (a_id a) = false) ->
+  parse_top c0 (bin :: v :: vals) = OOk m ->
+  exists e, fm_get (a_id a) (ms_args m) = Some e /\ m_raw e = [v :: vals] /\ m_source e = Some SCmdLine.
+Proof. exact wide_top_positional_run. Qed.
+Print Assumptions C07_wide_positional_run.
+
 (** an option given n times WITHOUT a value ([bare_token]: the token is [--opt] / [-o] of an option of the class):
     n occurrences without raw value; for an [Append] option without [default_missing_value] [parse_top] stores n
     EMPTY groups - [get_occurrences] = one group per occurrence, none dropped, merged or reused *)
